@@ -1,6 +1,7 @@
 package main
 
 import (
+	"encoding/base64"
 	"bytes"
 	"encoding/json"
 	"fmt"
@@ -200,6 +201,38 @@ func streamProto(c *Ctx) {
 		if err != nil || json.Unmarshal(js, &b3) != nil || blobStr(&b3) != blobStr(b) || !bytes.Equal(b3.Data(), b.Data()) {
 			c.violate("C19", "", "the JSON encoding of a blob does not decode to an equal blob", string(js), []string{"proto mblob " + specs[0].String()})
 		}
+		// decoding must not depend on what was decoded before: decode a version-1 blob (JSON and protobuf
+		// routes) and then decode this blob's JSON again, directly afterwards
+		{
+			poison, perr := share.NewV1Blob(share.MustNewV0Namespace(bytes.Repeat([]byte{7}, 10)), []byte{1, 2, 3}, bytes.Repeat([]byte{9}, 20))
+			if perr == nil && err == nil {
+				pjs, _ := json.Marshal(poison)
+				praw, _ := poison.Marshal()
+				for route := 0; route < 2; route++ {
+					c.oracle()
+					if route == 0 {
+						var tmp share.Blob
+						_ = json.Unmarshal(pjs, &tmp)
+					} else {
+						_, _ = share.UnmarshalBlob(praw)
+					}
+					var b4 share.Blob
+					if json.Unmarshal(js, &b4) != nil || blobStr(&b4) != blobStr(b) || !bytes.Equal(b4.Data(), b.Data()) {
+						c.violate("C19", "", fmt.Sprintf("the JSON encoding of a blob decodes differently after another blob was decoded (route %d): got %s, want %s", route, blobStr(&b4), blobStr(b)), string(js), []string{"proto mblob " + specs[0].String()})
+					}
+					// a version-1 document without signer must still be rejected right after a version-1 decode
+					if route == 0 {
+						_ = json.Unmarshal(pjs, new(share.Blob))
+					} else {
+						_, _ = share.UnmarshalBlob(praw)
+					}
+					noSigner := fmt.Sprintf(`{"namespace_id":"%s","data":"AQ==","share_version":1,"namespace_version":0}`, base64.StdEncoding.EncodeToString(b.Namespace().ID()))
+					if json.Unmarshal([]byte(noSigner), new(share.Blob)) == nil {
+						c.violate("C19", "", "a share-version-1 JSON blob without signer was accepted after another blob had been decoded", noSigner, nil)
+					}
+				}
+			}
+		}
 		// share and namespace JSON
 		sh, _ := b.ToShares()
 		sj, err := json.Marshal(sh[0])
@@ -312,6 +345,30 @@ func streamProto(c *Ctx) {
 			}
 		}
 	}
+	// JSON and binary round trip of every boundary namespace (all reserved constants and their neighbours,
+	// other versions, carry chains): a namespace value that exists must survive its own encoding
+	for _, nb := range c.boundaryNamespaces() {
+		ns, nerr := share.NewNamespaceFromBytes(nb)
+		if nerr != nil {
+			continue
+		}
+		c.oracle()
+		nj, err := json.Marshal(ns)
+		var n2 share.Namespace
+		if err != nil || json.Unmarshal(nj, &n2) != nil || !bytes.Equal(n2.Bytes(), ns.Bytes()) {
+			c.violate("C19", "", "the JSON encoding of namespace "+hx(nb)+" does not decode to an equal namespace", string(nj), nil)
+		}
+		type doc struct {
+			N share.Namespace `json:"n"`
+			X int             `json:"x"`
+		}
+		dj, err := json.Marshal(doc{N: ns, X: 7})
+		var d2 doc
+		if err != nil || json.Unmarshal(dj, &d2) != nil || !bytes.Equal(d2.N.Bytes(), ns.Bytes()) || d2.X != 7 {
+			c.violate("C19", "", "a JSON document embedding namespace "+hx(nb)+" does not decode to an equal value", string(dj), nil)
+		}
+	}
+	c.stats.Exhaustive = append(c.stats.Exhaustive, "JSON round trip of every boundary namespace (reserved constants, neighbours, other versions)")
 	c.stats.Exhaustive = append(c.stats.Exhaustive, "acceptance grid: share version 0..300 x 7 signer shapes x data length {0,1,5} (x 6 namespace classes for the boundary versions) through NewBlob, protobuf and JSON")
 	// namespace versions / id lengths through protobuf
 	for _, nv := range []uint32{0, 1, 254, 255, 256, 1 << 20} {
